@@ -44,14 +44,30 @@ where
     for k in [0usize, n / 2, n.saturating_sub(1), n, n + 1] {
         ok = ok && mk().nth(k) == v.get(k).cloned();
     }
-    // partially consumed, then last / count
-    if n >= 2 {
-        let mut it = mk();
-        let _ = it.next();
-        ok = ok && it.last() == v.last().cloned();
-        let mut it = mk();
-        let _ = it.next();
-        ok = ok && it.count() == n - 1;
+    // partially consumed (1, 2, 3 items), then the rest through fold-based
+    // methods: last, count, fold, for_each, collect
+    for k in 1..=3usize {
+        if n < k + 1 {
+            break;
+        }
+        let part = |k: usize| {
+            let mut it = mk();
+            for _ in 0..k {
+                let _ = it.next();
+            }
+            it
+        };
+        ok = ok && part(k).last() == v.last().cloned();
+        ok = ok && part(k).count() == n - k;
+        ok = ok && part(k).fold(Vec::new(), |mut acc, x| {
+            acc.push(x);
+            acc
+        }) == v[k..];
+        let mut seen = Vec::new();
+        part(k).for_each(|x| seen.push(x));
+        ok = ok && seen == v[k..];
+        ok = ok && part(k).collect::<Vec<T>>() == v[k..];
+        ok = ok && mk().skip(k).max() == v[k..].iter().cloned().max();
     }
     o.check(ok, &format!("{what}:provided-Iterator-methods-disagree-with-next"), || format!("next() yields {v:?}; count {} last {:?} size_hint {:?}", mk().count(), mk().last(), (lo, hi)));
 }
